@@ -1,7 +1,7 @@
 //vp:property C16
 //vp:pkg ./tsdb/index
 //vp:roots ./storage github.com/bboreham/go-loser
-//vp:bounds postings algebra: Intersect, Merge (loser tree) and Without over 2 list postings (thorough 3 for Intersect/Merge) of <=2 refs each (thorough 3), refs symbolic strictly increasing uint64 >= 1; consumed by Next, or by Seek(x) with arbitrary x >= 1 followed by Next
+//vp:bounds postings algebra: Intersect, Merge (loser tree) and Without over 2..3 list postings (Without: 2; the Seek harness uses 2 lists in quick) of <=2 refs each (thorough 3), refs symbolic strictly increasing uint64 >= 1; consumed by Next, or by Seek(x) with arbitrary x >= 1 followed by Next
 //vp:assume series references are < 2^63 (Merge's loser tree uses MaxUint64 as its end-of-list sentinel: a series with that reference would be dropped - recorded as an observation outside the bounds)
 //vp:assume series references are >= 1 and strictly increasing within a postings list; Seek targets >= 1 (listPostings.Seek(0) on a fresh iterator reports At()==0; references start at 1)
 package index
@@ -12,8 +12,8 @@ import (
 	"github.com/prometheus/prometheus/storage"
 )
 
-func vpXLists() [][]storage.SeriesRef {
-	kHi, nHi := 2, 2
+func vpXLists(kQuick int) [][]storage.SeriesRef {
+	kHi, nHi := kQuick, 2
 	if vpThorough() {
 		kHi, nHi = 3, 3
 	}
@@ -99,7 +99,7 @@ func vpXCheckPostings(op int, ls [][]storage.SeriesRef, out []storage.SeriesRef,
 
 func vpH_C16_postings_next() {
 	op := vpShape("op", 0, 2)
-	ls := vpXLists()
+	ls := vpXLists(3)
 	if op == 2 && len(ls) > 2 {
 		ls = ls[:2]
 	}
@@ -118,7 +118,7 @@ func vpH_C16_postings_next() {
 
 func vpH_C16_postings_seek() {
 	op := vpShape("op", 0, 2)
-	ls := vpXLists()
+	ls := vpXLists(2)
 	if op == 2 && len(ls) > 2 {
 		ls = ls[:2]
 	}
